@@ -67,6 +67,12 @@ var svcs = []svcDef{
 			{"login-cwd-pub", func(t string) [][]byte { return lines("USER anonymous", "PASS anonymous", "CWD pub", "PWD", "SIZE "+t) }},
 			{"login-pwd", func(t string) [][]byte { return lines("USER anonymous", "PASS anonymous", "PWD", "SIZE "+t, "CWD incoming", "PWD") }},
 			{"badlogin-gated", func(t string) [][]byte { return lines("USER "+t, "PASS "+t, "PWD", "FEAT") }},
+			// a TLS upgrade that fails (a handshake record that is not a ClientHello): the session goes on in plain text
+			{"authtls-fails", func(t string) [][]byte {
+				st := lines("AUTH TLS")
+				st = append(st, []byte{0x16, 0x03, 0x01, 0x00, 0x04, 0x0b, 0x00, 0x00, 0x00})
+				return append(st, lines("NOOP", "USER anonymous", "PASS anonymous", "PWD", "SIZE "+t)...)
+			}},
 		},
 		Abort: func(t string) [][]byte { return [][]byte{[]byte("USER anonymous\r\n"), []byte("PASS anonymous\r\n"), []byte("CWD incoming\r\n"), []byte("SIZE " + t + "\r\n"), []byte("CWD pu")} }},
 	{Name: "smtp", Type: "smtp", Net: "tcp", Port: 25,
